@@ -158,6 +158,23 @@ Violations(c, t, b, now, n) ==
 SanityRules  == {"target-range", "time-too-new"}
 ContextRules == {"bad-diffbits", "time-too-old", "timewarp"}
 
+\* btcd's sanity bound behind a checkpoint (ProcessBlock; not a rule of the
+\* protocol, specified as btcd documents it): the easiest target a chain can
+\* have reached d seconds after a block with the given bits -- the target may
+\* grow by the adjustment factor once per maximal retarget timespan, up to the
+\* limit; on a network with the minimum-difficulty rule the limit itself is
+\* allowed as soon as d exceeds the reduction time.
+RECURSIVE Grow(_, _, _)
+Grow(t, d, n) == IF d <= 0 \/ ~Lt(t, n.limit) THEN t
+                 ELSE Grow(MulSmall(t, n.factor), d - MaxSpan(n), n)
+Easiest(bits, d, n) ==
+    IF n.reduce /\ d > n.reduction THEN n.limitBits
+    ELSE LET g == Grow(CompactMag(bits), d, n)
+         IN  BigToCompact(Pos(IF Lt(n.limit, g) THEN n.limit ELSE g))
+\* a block offered d seconds after the checkpoint is refused when its target
+\* is above that bound
+TooEasy(b, cpBits, d, n) == Lt(CompactMag(Easiest(cpBits, d, n)), CompactMag(b))
+
 -----------------------------------------------------------------------------
 (* (c) subsidy *)
 
